@@ -108,7 +108,7 @@ CONTRACTS.update({
     props=[], axiom=True,
     params={}, returns=LRB_MODEL, ensures=[]),
  'DLISWriter.write_logical_records': dict(
-    props=['C01', 'C02', 'C10', 'C15'],
+    props=['C01', 'C02', 'C10', 'C15', 'C16'],
     params={'logical_records': 'seq[ref]', 'output_chunk_size': 'int?'}, returns='none',
     ref_methods={'represent_as_bytes': 'LogicalRecord.represent_as_bytes'},
     ghost={'disk': ('bytes', 'fresh_bytes()'), 'stream': ('bytes', "b''"), 'nvr': ('int', '0')},
